@@ -58,7 +58,7 @@ def csc (target : Vec α 4) (R : α) (c1 c3 : Seg) : α × α × α :=
   else
     let n := memoV (normalized dv)
     let theta0 := memoV (so2norm (n 1) (n 0))
-    if c1 ≠ c3 ∧ d13 ≤ nat 2 * R then (inf, inf, inf) else
+    if c1 ≠ c3 ∧ d13 < nat 2 * R then (inf, inf, inf) else
     let theta :=
       if c1 ≠ c3 then
         let diff := memoV (so2norm (nat 2 * R / d13) (Scalar.sqrt (nat 1 - nat 4 * R * R / (d13 * d13))))
@@ -75,7 +75,7 @@ def ccc (target : Vec α 4) (R : α) (c13 c2 : Seg) : α × α × α :=
   let d13 := norm2 dv
   let tq := SE2.so2 target
   if d13 < Scalar.macheps then (angle SO2.identity tq c13, nat 0, nat 0)
-  else if nat 4 * R ≤ d13 then (inf, inf, inf)
+  else if nat 4 * R < d13 then (inf, inf, inf)
   else
     let A1312 := memoV (so2norm (Scalar.sqrt (nat 1 - d13 * d13 / (nat 16 * R * R))) (d13 / (nat 4 * R)))
     let Ainv := SO2.inverse A1312
